@@ -350,6 +350,7 @@ func runChunk(self string, raceBin string, id, tier string, seed int64, work str
 	})
 	open := -1
 	aborted := false
+	nResults := 0
 	results := map[int]bool{}
 	sc := bufio.NewScanner(stdout)
 	sc.Buffer(make([]byte, 1<<20), 64<<20)
@@ -370,6 +371,7 @@ func runChunk(self string, raceBin string, id, tier string, seed int64, work str
 			if err := json.Unmarshal([]byte(line[6:]), &r); err == nil {
 				local = append(local, r)
 				results[r.Case] = true
+				nResults++
 				open = -1
 			}
 		}
@@ -412,14 +414,14 @@ func runChunk(self string, raceBin string, id, tier string, seed int64, work str
 		}
 	}
 	exitOK := err == nil
-	if !exitOK && job.mode.race && raceText != "" && !timedOut && open == -1 && len(results) == len(job.cases) {
+	if !exitOK && job.mode.race && raceText != "" && !timedOut && open == -1 && nResults == len(job.cases) {
 		// exit status 66: the race detector's own exit code; already accounted for.
 		exitOK = true
 	}
 	if aborted && exitOK && open == -1 {
 		return
 	}
-	if !exitOK || len(results) != len(job.cases) {
+	if !exitOK || nResults != len(job.cases) {
 		if timedOut {
 			r := caseResult{Mode: job.mode.name, Case: open, Verdict: vInconclusive,
 				Detail:  fmt.Sprintf("child watchdog (%v) fired; open case %d", job.mode.timeout, open),
